@@ -9,6 +9,7 @@ Unsupported (reported as ANALYSIS-ERROR by the rules).
 """
 import ast
 import json
+import os
 import re
 
 MAX_STEPS = 400000
@@ -36,6 +37,8 @@ SAFE_BUILTINS = {
 SAFE_ATTR_CALLS = {
     're.escape': re.escape, 're.compile': re.compile, 're.match': re.match, 're.fullmatch': re.fullmatch, 're.search': re.search,
     're.sub': re.sub, 'json.dumps': json.dumps,
+    'os.path.splitext': os.path.splitext, 'os.path.basename': os.path.basename, 'os.path.dirname': os.path.dirname,
+    'os.path.join': os.path.join, 'os.path.isabs': os.path.isabs, 'os.path.normpath': os.path.normpath,
 }
 SAFE_METHODS = {
     str: {'join', 'replace', 'startswith', 'endswith', 'lower', 'upper', 'strip', 'lstrip', 'rstrip', 'split', 'format', 'isdigit',
